@@ -104,6 +104,9 @@ func (p *C18) Gen(seed uint64, e int, tier string) *scen.Scenario {
 		switch c := r.Intn(12); {
 		case c < 5:
 			d := scen.Pick(r, bases[2:])
+			if r.Chance(1, 6) {
+				d += "/" // a directory registered with its trailing slash
+			}
 			sc.Setup = append(sc.Setup, scen.Op{Op: "add_path", Name: d, Msg: scen.Pick(r, repls)})
 			added = append(added, d)
 		case c < 7 && len(added) > 0:
@@ -146,7 +149,7 @@ func (p *C18) WellFormed(sc *scen.Scenario) bool {
 		op := &sc.Setup[i]
 		switch op.Op {
 		case "add_path", "remove_path":
-			if len(op.Name) < 2 || (op.Name[0] != '/' && !strings.HasPrefix(op.Name, "$SRCROOT")) || strings.HasSuffix(op.Name, "/") {
+			if len(op.Name) < 2 || (op.Name[0] != '/' && !strings.HasPrefix(op.Name, "$SRCROOT")) {
 				return false
 			}
 			if op.Op == "add_path" && (op.Msg == "" || op.Msg[0] == '/') {
@@ -171,6 +174,9 @@ func under(q, d string) bool {
 	}
 	if d == "/" {
 		return strings.HasPrefix(q, "/")
+	}
+	if strings.HasSuffix(d, "/") {
+		return strings.HasPrefix(q, d) // the directory itself, written without the slash, is judged separately
 	}
 	dd := strings.TrimSuffix(d, "/")
 	return q == dd || q == d || strings.HasPrefix(q, dd+"/")
@@ -230,6 +236,11 @@ func (p *C18) Check(sc *scen.Scenario, run *orch.Run, env *orch.Env) []orch.Viol
 		if strings.HasPrefix(q, "/Volumes/") {
 			return // the built-in tilde rule; the statement does not say whether it is a mapping
 		}
+		for _, d := range order {
+			if _, ok := maps[d]; ok && strings.HasSuffix(d, "/") && d != "/" && q == strings.TrimSuffix(d, "/") {
+				return // "/opt/x" against the mapping "/opt/x/": the statement does not say; only "never panics" is demanded
+			}
+		}
 		var prot []string
 		if privacy {
 			for _, d := range order {
@@ -271,7 +282,13 @@ func (p *C18) Check(sc *scen.Scenario, run *orch.Run, env *orch.Env) []orch.Viol
 		}
 		if len(prot) == 1 && !reMatch {
 			d := prot[0]
+			if len(d) > len(q) {
+				return
+			}
 			want := maps[d] + q[len(d):]
+			if strings.HasSuffix(d, "/") && d != "/" && (got == maps[d]+"/"+q[len(d):]) {
+				return // "~u" + "/" + rest is as good as "~u" + rest for a key that ends in a slash
+			}
 			if d == "/" && got == maps[d]+q {
 				return // "~" + "/home/x": equally a replacement of the prefix "/"
 			}
